@@ -37,7 +37,8 @@ def is_arr(q):
 
 
 class Ctx:
-    def __init__(self, src, sizes, enum_unsigned):
+    def __init__(self, src, sizes, enum_unsigned, path=None):
+        self.path = path
         self.src = src
         self.sizes = sizes            # type text -> size
         self.want = set()             # type texts whose size is needed
@@ -70,6 +71,11 @@ class Ctx:
         self.want.add(q)
         return self.sizes.get(q)
 
+    def offsetof(self, ty, path):
+        key = "@offsetof(%s, %s)" % (ty, path)
+        self.want.add(key)
+        return self.sizes.get(key)
+
     def text(self, n):
         r = n.get("range") or {}
         b, e = r.get("begin") or {}, r.get("end") or {}
@@ -79,8 +85,14 @@ class Ctx:
             e = e["expansionLoc"]
         if "offset" not in b or "offset" not in e:
             return None
-        s = self.src[b["offset"]: e["offset"] + e.get("tokLen", 0)]
-        return re.sub(r"\s+", "", s)
+        if b.get("_file") != self.path or e.get("_file") != self.path:
+            return None                 # the text lives in another file (a macro body, an inline function of a header)
+        s = self.src[b["offset"]: e["offset"] + e.get("tokLen", 0)].decode("utf8", "replace")
+        s = re.sub(r"\s+", "", s)
+        # offsets of nodes that come from a macro body or another file do not index this file: keep only what reads as an lvalue
+        if not s or not re.fullmatch(r"[\w\->.\[\]()*&+]+", s) or s.count("(") != s.count(")") or s.count("[") != s.count("]"):
+            return None
+        return s
 
 
 def coq_s(s):
@@ -89,6 +101,79 @@ def coq_s(s):
 
 def zl(v):
     return "(%d)" % v if v < 0 else "%d" % v
+
+
+def param_types(fq):
+    """parameter type texts of a function type 'R (A, B, C)' (qualifiers kept)"""
+    m = re.search(r"\((.*)\)\s*$", fq)
+    if not m:
+        return []
+    out, depth, cur = [], 0, ""
+    for ch in m.group(1):
+        if ch == "(":
+            depth += 1
+        elif ch == ")":
+            depth -= 1
+        if ch == "," and depth == 0:
+            out.append(cur.strip()); cur = ""
+        else:
+            cur += ch
+    if cur.strip():
+        out.append(cur.strip())
+    return out
+
+
+def addr_of(cx, n):
+    """address expression of an lvalue that lives in memory the routine was handed - p[i], *p, and q->f / q->f.g where q is not
+    simply a parameter or local (a pointer that was itself loaded or computed).  None: the lvalue is treated as a variable named by
+    its source text (fields of the routine's own objects: `it->_frame_end`, `tags->length`, `spec.tv_sec` ...)."""
+    k = n.get("kind")
+    inner = n.get("inner") or []
+    if k == "ParenExpr" and inner:
+        return addr_of(cx, inner[0])
+    if k == "ArraySubscriptExpr" and len(inner) == 2:
+        base, idx = inner
+        qb = qual(base.get("type"))
+        bs = astq.strip(base)
+        if bs.get("kind") == "MemberExpr" and is_arr(qual(bs.get("type"))):
+            return None                      # an array member of the routine's own object: a variable
+        if not is_ptr(qb):
+            return None
+        sz = cx.sizeof(qb[:-1].strip())
+        if sz is None:
+            return None
+        ie = "(CCast s64 %s)" % expr(cx, idx)
+        if sz != 1:
+            ie = "(CBin OMul s64 %s (CLit s64 %d))" % (ie, sz)
+        return "(CBin OAdd s64 %s %s)" % (expr(cx, base), ie)
+    if k == "UnaryOperator" and n.get("opcode") == "*" and inner:
+        return expr(cx, inner[0])
+    if k == "MemberExpr" and inner:
+        # collect the member path down to the first arrow
+        path = []
+        m = n
+        while m.get("kind") == "MemberExpr" and not m.get("isArrow"):
+            path.append(m.get("name"))
+            m = (m.get("inner") or [{}])[0]
+            while m.get("kind") == "ParenExpr":
+                m = (m.get("inner") or [{}])[0]
+        if m.get("kind") != "MemberExpr" or not m.get("isArrow"):
+            return None
+        path.append(m.get("name"))
+        base = (m.get("inner") or [{}])[0]
+        bs = base
+        while bs.get("kind") in ("ParenExpr", "ImplicitCastExpr") and bs.get("castKind") in (None, "LValueToRValue", "NoOp") and bs.get("inner"):
+            bs = bs["inner"][0]
+        if bs.get("kind") == "DeclRefExpr":
+            return None                      # param->field: the routine's own object, a variable (a pointer that is CAST first is memory)
+        qb = qual(base.get("type"))
+        if not is_ptr(qb):
+            return None
+        off = cx.offsetof(qb[:-1].strip(), ".".join(reversed(path)))
+        if off is None:
+            return None
+        return "(CBin OAdd s64 %s (CLit s64 %d))" % (expr(cx, base), off)
+    return None
 
 
 def expr(cx, n):
@@ -134,6 +219,9 @@ def expr(cx, n):
             return "(CVar %s %s)" % (ty, coq_s(rd["name"]))
         return "CUnknown"
     if k in ("MemberExpr", "ArraySubscriptExpr") or (k == "UnaryOperator" and n.get("opcode") == "*"):
+        a = addr_of(cx, n)
+        if a is not None and ty and not n.get("isBitfield"):
+            return "(CLoad %s %s)" % (ty, a)
         t = cx.text(n)
         if ty and t:
             return "(CVar %s %s)" % (ty, coq_s(t))
@@ -226,6 +314,23 @@ def sites_of(cx, fn):
                     for i, a in enumerate(args):
                         out.append(("%s:%d" % (kk, i), a))
                 res.append("(SCall %s %s %s)" % (coq_s(kk), coq_s(nm), lst(args)))
+                # an argument &x / a local array handed over through a pointer to non-const: the callee may write x
+                ptypes = param_types(((callee.get("type") or {}).get("qualType")) or "")
+                for i, a in enumerate(inner[1:]):
+                    b = a
+                    while b.get("kind") in ("ParenExpr", "ImplicitCastExpr", "CStyleCastExpr") and b.get("castKind") in (None, "BitCast", "NoOp") and b.get("inner"):
+                        b = b["inner"][0]
+                    target = None
+                    if b.get("kind") == "UnaryOperator" and b.get("opcode") == "&" and b.get("inner"):
+                        target = cx.text(b["inner"][0])
+                    elif b.get("kind") == "ImplicitCastExpr" and b.get("castKind") == "ArrayToPointerDecay" and b.get("inner"):
+                        target = cx.text(b["inner"][0])
+                    if target is None:
+                        continue
+                    pt = ptypes[i] if i < len(ptypes) else ""
+                    if re.search(r"\bconst\b[^*]*\*\s*(restrict|__restrict)?\s*$", pt):
+                        continue            # pointer to const: the callee only reads
+                    res.append("(SClobber %s)" % coq_s(target))
         return res
 
     def block(n):
@@ -351,6 +456,27 @@ def sites_of(cx, fn):
     return out, tree
 
 
+def annotate_files(docs):
+    """clang prints "file" in a location only when it differs from the previously printed location: walk the document in print
+    order and write the current file into every location object"""
+    cur = [None]
+
+    def go(x):
+        if isinstance(x, dict):
+            if "offset" in x or "file" in x:
+                if "file" in x:
+                    cur[0] = x["file"]
+                x["_file"] = cur[0]
+            for kk, v in x.items():
+                if kk != "includedFrom":
+                    go(v)
+        elif isinstance(x, list):
+            for v in x:
+                go(v)
+    for d in docs:          # the documents of ONE clang run: the "current file" carries over from one to the next
+        go(d)
+
+
 def probe_sizes(types, cflags, build):
     if not types:
         return {}
@@ -358,9 +484,9 @@ def probe_sizes(types, cflags, build):
     exe = os.path.join(build, "sizes_probe")
     types = sorted(types)
     with open(src, "w") as f:
-        f.write('#include <stdio.h>\n#include "libwifi.h"\n#include "libwifi/core/radiotap/radiotap_iter.h"\nint main(void) {\n')
+        f.write('#include <stdio.h>\n#include <stddef.h>\n#include "libwifi.h"\n#include "libwifi/core/radiotap/radiotap_iter.h"\nint main(void) {\n')
         for i, t in enumerate(types):
-            f.write('  printf("%%d %%zu\\n", %d, sizeof(%s));\n' % (i, t))
+            f.write('  printf("%%d %%zu\\n", %d, %s);\n' % (i, (t[1:] if t.startswith("@") else "sizeof(%s)" % t)))
         f.write("  return 0;\n}\n")
     r = subprocess.run(["gcc"] + [c for c in cflags if not c.startswith("-fsyntax")] + ["-w", src, "-o", exe], stdout=subprocess.PIPE, stderr=subprocess.STDOUT, text=True)
     if r.returncode != 0:
@@ -368,7 +494,7 @@ def probe_sizes(types, cflags, build):
         ok = {}
         for t in types:
             with open(src, "w") as f:
-                f.write('#include <stdio.h>\n#include "libwifi.h"\n#include "libwifi/core/radiotap/radiotap_iter.h"\nint main(void) { printf("%%zu\\n", sizeof(%s)); return 0; }\n' % t)
+                f.write('#include <stdio.h>\n#include <stddef.h>\n#include "libwifi.h"\n#include "libwifi/core/radiotap/radiotap_iter.h"\nint main(void) { printf("%%zu\\n", %s); return 0; }\n' % (t[1:] if t.startswith("@") else "sizeof(%s)" % t))
             r = subprocess.run(["gcc"] + cflags + ["-w", src, "-o", exe], stdout=subprocess.PIPE, stderr=subprocess.STDOUT, text=True)
             if r.returncode == 0:
                 ok[t] = int(subprocess.run([exe], stdout=subprocess.PIPE, text=True).stdout.strip())
@@ -389,9 +515,12 @@ def emit(repo, gen, cflags, write_if_changed, build):
         allf = []
         want = set()
         for path in files:
-            src = open(path, errors="replace").read()
-            docs = astq.ast_of(cflags, path, "libwifi_") + astq.ast_of(cflags, path, "ieee80211_radiotap_")
-            cx = Ctx(src, sizes, True)
+            src = open(path, "rb").read()          # clang's offsets count bytes (the sources have UTF-8 box drawings in comments)
+            d1, d2 = astq.ast_of(cflags, path, "libwifi_"), astq.ast_of(cflags, path, "ieee80211_radiotap_")
+            annotate_files(d1)
+            annotate_files(d2)
+            docs = d1 + d2
+            cx = Ctx(src, sizes, True, path)
             seen = set()
             for d in docs:
                 for n in astq.walk(d):
